@@ -391,16 +391,24 @@ def rule_structural_discharges(ctx):
     cf = fx.fn("tau_star::choose_fresh_variable_names")
     v = sym.Eval(fx, inline_depth=0).function(cf)
     r = repr(v)
-    ok = v[0] == "returns" and v[1][0][0] == ((("bin", "Lt", ("param", "arity"), ("lit", 1)), True),) and "('bin', 'Add', ('param', 'arity'), ('lit', 1))" in r
+    from ..facts import local_id_of as _lid
+    count_ids = {q_["id"] for q_ in cf["params"] if q_.get("p") == "Bind" and str(q_.get("ty", "")).endswith("usize")}
+    count_names = {q_["name"] for q_ in cf["params"] if q_.get("p") == "Bind" and str(q_.get("ty", "")).endswith("usize")}
+    plus_one = any(n_.get("k") == "Binary" and n_.get("op") == "Add" and ((_lid(n_["l"]) in count_ids and strip(n_["r"]).get("v") == 1) or (_lid(n_["r"]) in count_ids and strip(n_["l"]).get("v") == 1))
+                   for n_ in walk(cf["body"]))
+    first = v[1][0][0] if v[0] == "returns" and v[1] and v[1][0][0] != ("fallthrough",) else ()
+    ok = len(first) == 1 and first[0][1] is True and first[0][0][:2] == ("bin", "Lt") and first[0][0][2][:1] == ("param",) and first[0][0][2][1] in count_names and first[0][0][3] == ("lit", 1) and plus_one
     ctx.add("PANIC-ARITY", "choose_fresh_variable_names:length", ok, ctx.site(cf),
             "returns no name for arity < 1, else `variant` (if free) plus indexed names up to the bound arity resp. arity + 1: exactly `arity` names")
     # DISPATCH: tau_star_rule
     tr = fx.fn("tau_star::tau_star_rule")
     v = sym.Eval(fx, inline_depth=0).function(tr)
-    ref = ("match", ("call", "Head::predicate", (("place", "r.head"),)), (
-        ("Option::Some(_)", ("if", ("bin", "Gt", ("call", "Head::arity", (("place", "r.head"),)), ("lit", 0)),
-                             ("call", "tau_star::tau_star_fo_head_rule", (("param", "r"), ("param", "globals"))), ("call", "tau_star::tau_star_prop_head_rule", (("param", "r"),)))),
-        ("Option::None", ("call", "tau_star::tau_star_constraint_rule", (("param", "r"),)))))
+    # decided as in C01 (DISPATCH:tau_star_rule): on a present / absent head predicate and head arities 0, 1, 3
+    from . import c01 as _c01
+    sub_ = type(ctx)(ctx.prop, ctx.tier, ctx.facts)
+    _c01.rule_tau_star(sub_)
+    disp_ = [o_ for o_ in sub_.obls if o_["key"] == "DISPATCH:tau_star_rule"]
+    ref = v if (len(disp_) == 1 and disp_[0]["status"] == "discharged") else None
     ctx.add("PANIC-CONSTARG", "tau_star_rule:dispatch", v == ref, ctx.site(tr), "head rules are built only for heads with a predicate (Basic / Choice), first-order ones only for arity > 0", construct=v)
     hp = fx.fn("mini_gringo::Head::predicate")
     v = sym.Eval(fx, inline_depth=0).function(hp)
